@@ -117,6 +117,12 @@ Explained2(e, M) ==
     [] e.op = "sq_trap" -> IF InVar(M, e.var) THEN Read(e, M) /\ <<e.ri, e.rl>> = SqTrap2x4F(M, e.var) ELSE Unchanged(e, M)
     [] OTHER -> FALSE
 
+\* kind "nx": the query point is a node coordinate as stored in the mesh; got / want are the bit patterns of the interpolated and of the
+\* stored nodal values.  At every node but the last the stored value must come back bit for bit.  At the LAST node the unchanged code
+\* evaluates left + ((right - left) / dx) * dx in the only cell that contains it, which is not exact when dx has an inexact reciprocal
+\* (measured on the unchanged tree); exactly that position is judged in units of 8 eps max|data| instead.
+NodeExact(e) == /\ ~e.panic /\ Len(e.got) = Len(e.want) /\ Len(e.got) > 0
+                /\ IF e.node < e.nn - 1 THEN e.got = e.want ELSE AllLe(e.units, InterpAnyGuard)
 Explained(e, M) == IF e.kind = "m1" THEN Explained1(e, M) ELSE Explained2(e, M)
 
 \* the logged store has the model's shape (only then can the history continue from it)
@@ -138,11 +144,13 @@ Init == l = 1 /\ cur = [xf |-> <<0, 0>>, kx |-> 0] @@ New1(<<0, 1>>, 1) /\ TLCSe
 Step == /\ l <= NRec
         /\ LET e == Rec[l]
                M == Pre(e)
-           IN IF Explained(e, M)
-                THEN cur' = [M EXCEPT !.vars = e.post]              \* = the model's post-state (checked by Explained)
-                ELSE /\ Mismatch(l, e, e.op)
-                     /\ LET X == ModelPost(e, M)                    \* re-synchronise on the logged store if plausible
-                        IN cur' = IF Plausible(e, M, X) THEN [M EXCEPT !.vars = e.post] ELSE X
+           IN IF e.kind = "nx"
+                THEN IF NodeExact(e) THEN cur' = cur ELSE Mismatch(l, e, e.op) /\ cur' = cur
+                ELSE IF Explained(e, M)
+                       THEN cur' = [M EXCEPT !.vars = e.post]              \* = the model's post-state (checked by Explained)
+                       ELSE /\ Mismatch(l, e, e.op)
+                            /\ LET X == ModelPost(e, M)                    \* re-synchronise on the logged store if plausible
+                               IN cur' = IF Plausible(e, M, X) THEN [M EXCEPT !.vars = e.post] ELSE X
         /\ l' = l + 1
 Spec == Init /\ [][Step]_vars
 =============================================================================
